@@ -193,7 +193,7 @@ Proof.
   - exists s. now rewrite app_nil_r.
   - cbn [existsb] in H. apply negb_true_iff, orb_false_iff in H as [Ha Hl].
     assert (Hl' : negb (existsb action_is_panic l) = true) by now rewrite Hl.
-    destruct a as [k v|n|b|k v|k|m]; cbn [run_action bind] in *; try discriminate.
+    destruct a as [k v|n|b|k v|k|m|k]; cbn [run_action bind] in *; try discriminate.
     + destruct (IH (upd_hdr s (hadd (st_hdr s) k v)) Hl') as (s' & E & L1 & A1). exists s'. auto.
     + destruct (IH (write_header s n) Hl') as (s' & E & L1 & A1). destruct (vlog_write_header s n) as [V A].
       exists s'. rewrite V, A in *. auto.
@@ -204,6 +204,7 @@ Proof.
       exists s'. split; [exact E|]. split; [|exact A1]. rewrite L1. unfold vlog. cbn [upd_log st_log st_attrs].
       rewrite filter_app. cbn [filter]. replace (is_see (L "see:" ++ k ++ L "=" ++ attr_get k (st_attrs s))) with true by reflexivity.
       now rewrite <- app_assoc.
+    + destruct (IH (upd_hdr s (filter (fun kv => negb (str_eqb (fst kv) k)) (st_hdr s))) Hl') as (s' & E & L1 & A1). exists s'. auto.
 Qed.
 
 Lemma vlog_upd_log_other s e : is_see e = false -> vlog (upd_log s e) = vlog s.
